@@ -97,6 +97,9 @@ func TestC17Admit(t *testing.T) {
 		if c.Record && c.Proto == "mcast" {
 			c.Proto = "udp"
 		}
+		if rapid.IntRange(0, 2).Draw(rt, "second_media") == 0 {
+			c.SecondProfile = rapid.SampledFrom([]string{"AVP", "SAVP"}).Draw(rt, "second_profile")
+		}
 		status, err := pbt.SafeJ("C17", "admit", runAdmit, c)
 		refuse, _ := c.mustRefuse()
 		labels := []string{fmt.Sprintf("tls:%v", c.TLS), "profile:" + c.Profile, "proto:" + c.Proto, "keymgmt:" + c.KeyMgmt}
